@@ -422,6 +422,9 @@ impl<'a> IrCodegen<'a> {
                 inner.set_emit_zen(true);
             }
             inner.set_routes(self.routes.clone());
+            if self.test_mode {
+                inner.set_test_function(self.test_function.clone());
+            }
             inner.set_needs_serde(self.needs_serde);
             inner.set_needs_tokio(self.needs_tokio);
             inner.set_needs_axum(self.needs_axum);
@@ -434,6 +437,9 @@ impl<'a> IrCodegen<'a> {
                 emitter.set_emit_zen(true);
             }
             emitter.set_routes(self.routes.clone());
+            if self.test_mode {
+                emitter.set_test_function(self.test_function.clone());
+            }
             emitter.set_needs_serde(self.needs_serde);
             emitter.set_needs_tokio(self.needs_tokio);
             emitter.set_needs_axum(self.needs_axum);
